@@ -173,7 +173,10 @@ func (em *Emission) construct(t string) string {
 // isReplayOrCompact: emission sites inside replay/compaction are exempt from command-side guards.
 func (c *Ctx) isReplayOrCompact(fn *ssa.Function) bool {
 	o := Outermost(fn)
-	return o == c.F.Anchors["replayEvents"] || o == c.F.Anchors["compactEvents"]
+	if o == c.F.Anchors["replayEvents"] || o == c.F.Anchors["compactEvents"] {
+		return true
+	}
+	return c.inUnit(o, c.F.Anchors["replayEvents"]) || c.inUnit(o, c.F.Anchors["compactEvents"])
 }
 
 // successReturns: returns of f whose error result (last result) is the nil constant
